@@ -243,6 +243,9 @@ pub fn run_c01(ctx: &Ctx, rec: &mut Rec) {
             }
         }
     });
+    // object-lifecycle programs: encode/decode round trip of objects that were deserialised, converted
+    // and mutated in place
+    par(rec, |w, n, rec| crate::life::programs(ctx, rec, P, crate::life::RT, w, n, ctx.scale(600, 12000), &zoo));
     rec.check_coverage();
 }
 
@@ -673,6 +676,9 @@ pub fn run_c03(ctx: &Ctx, rec: &mut Rec) {
             }
         }
     });
+    // object-lifecycle programs: every encoder on objects that were deserialised / converted / mutated in
+    // place, against encodeSpec of what their coordinates denote
+    par(rec, |w, n, rec| crate::life::programs(ctx, rec, P, crate::life::ENC, w, n, ctx.scale(1000, 20000), &zoo));
     rec.check_coverage();
 }
 
